@@ -569,6 +569,12 @@ pub fn check_main(profiles: &[Profile], id: &str, tier: Tier) -> i32 {
             _ => {}
         }
     }
+    // 2b. pinned scenarios of this profile (both tiers)
+    let mut pinned_cases = 0u64;
+    let mut pinned_out = RunOut::default();
+    if let Some(pf) = p.pinned {
+        pinned_cases = pf(&mut pinned_out);
+    }
     // 3. workers
     let nw = std::thread::available_parallelism().map(|n| n.get()).unwrap_or(4).min(16) as u64;
     // wall-clock cap (a safety net, not the budget): VERIF_SECS overrides it and then *is* the budget
@@ -639,6 +645,9 @@ pub fn check_main(profiles: &[Profile], id: &str, tier: Tier) -> i32 {
             exit_code = 1;
             violations_total += 1;
         }
+    }
+    for v in &pinned_out.violations {
+        agg.violations.push((u64::MAX, v.property.to_string(), v.clause.to_string(), format!("pinned scenario: {}", v.detail)));
     }
     // 5. violations: minimise, write replay, verify in a fresh process
     let mut reported: BTreeSet<(String, String)> = BTreeSet::new();
@@ -815,6 +824,8 @@ pub fn check_main(profiles: &[Profile], id: &str, tier: Tier) -> i32 {
         .set("probes", J::from_counts(&agg.probes))
         .set("distinct_interleavings", J::i(agg.interleavings.len() as i128))
         .set("interleaving_measure", J::s("distinct hashes of the per-run sequence (task, seam, poll result) over executor polls and provider/body seam events"))
+        .set("pinned_cases", J::i(pinned_cases as i128))
+        .set("pinned_probes", J::from_counts(&pinned_out.probes))
         .set("sweep_cases", J::i(sweep_cases as i128))
         .set("sweep_probes", J::from_counts(&sweep_out.probes))
         .set("required_probes", J::Arr(p.required.iter().map(|s| J::s(s)).collect()))
